@@ -22,8 +22,10 @@ func init() {
 			"(cap) in every caller of findOrClaimBlock (autoAssign, ensureBlock) the call is reached only with owned < cap, with no cap (cap <= 0), or after allowNewClaim=false was stored into the state the call is made on; the owned count starts at len(affine blocks) and, where the call repeats, grows on every newly claimed block; allowNewClaim is never re-enabled; in findOrClaimBlock new blocks are looked for only under allowNewClaim, otherwise an error is returned; " +
 			"(cidr) every returned IPNet is the parsed block CIDR with only the IP replaced by the allocated ordinal's address; " +
 			"(filterro) every implementation of addrFilter is read-only in all three interface methods: no store, append, copy, sort or in-package callee reached with the receiver's storage writes into the (request-wide shared) reservation list; " +
-			"(capset) the affine-block list whose length is compared with the cap is filterBlocksByPools(getAffineBlocks(...)), and no branch of getAffineBlocks depends on the value (state) of a listed affinity, so pending / pendingDeletion affinities are counted.",
-		NotDecided: "Selector evaluation and CIDR containment arithmetic; that explicitly requested pools bypass node/namespace selectors (documented backwards-compatibility exception, reported in the evidence); computation of the effective per-host cap from request and global config; races between concurrent claimers (C22); AssignIP (explicit address) is out of the property's scope.",
+			"(capset) the affine-block list whose length is compared with the cap is filterBlocksByPools(getAffineBlocks(...)), and no branch of getAffineBlocks depends on the value (state) of a listed affinity, so pending / pendingDeletion affinities are counted; " +
+			"(afftype) every function of lib/ipam that builds its own AffinityConfig while the request's intended use is in scope (autoAssign, which claims and assigns; prepareAffinityBlocksForHost, which looks up the host's existing affinities that are counted against the cap; AssignIP) " +
+			"hands the config on only with AffinityType = virtual on paths where use == LoadBalancer and = host on paths where use != LoadBalancer (path-sensitive over the CFG, through composite literals, struct copies and phis of constants), so look-up and claim of one request agree on (type, host).",
+		NotDecided: "Selector evaluation and CIDR containment arithmetic; that explicitly requested pools bypass node/namespace selectors (documented backwards-compatibility exception, reported in the evidence); computation of the effective per-host cap from request and global config; races between concurrent claimers (C22); AssignIP (explicit address) is out of the property's scope except for its use→affinity-type classification; functions that receive a ready-made AffinityConfig (ensureBlock, ClaimAffinity, release paths) are not checked against an intended use, and that a caller passes its own use/host to the callee that builds the config is not decided.",
 		Assumptions: []string{
 			"go/types + go/ssa (x/tools v0.50.0) model of the current source, CGO_ENABLED=0 build",
 			"PoolAccessorInterface.GetEnabledPools returns only enabled pools (implemented outside lib/ipam)",
@@ -81,6 +83,12 @@ func init() {
 				New: "\t\tk := o.Key.(model.BlockAffinityKey)\n\t\tswitch o.Value.(*model.BlockAffinity).State {\n\t\tcase model.StateConfirmed:\n\t\t\tblocks = append(blocks, model.IPNetFromPrefix(k.CIDR))\n\t\t}\n", Expect: "C20.capset/getAffineBlocks/no-value-filter"},
 			{Name: "only the first affine block is handed on for counting", File: "libcalico-go/lib/ipam/ipam.go",
 				Old: "filterBlocksByPools(allAffBlocks, poolsAllowedByUse)", New: "filterBlocksByPools(append([]net.IPNet(nil), allAffBlocks[:min(1, len(allAffBlocks))]...), poolsAllowedByUse)", Expect: "C20.capset/prepareAffinityBlocksForHost/source"},
+			{Name: "existing-affinity lookup for a LoadBalancer request asks for host-typed affinities", File: "libcalico-go/lib/ipam/ipam.go",
+				Old: "\t\tv3n.Name = v3.VirtualLoadBalancer\n\t\taffinityCfg.AffinityType = AffinityTypeVirtual\n", New: "\t\tv3n.Name = v3.VirtualLoadBalancer\n", Expect: "C20.afftype/ipamClient.prepareAffinityBlocksForHost"},
+			{Name: "AssignIP claims host-typed affinity for LoadBalancer addresses", File: "libcalico-go/lib/ipam/ipam.go",
+				Old: "\tif args.IntendedUse == v3.IPPoolAllowedUseLoadBalancer {\n\t\taffinityCfg.AffinityType = AffinityTypeVirtual\n\t}\n", New: "", Expect: "C20.afftype/ipamClient.AssignIP"},
+			{Name: "autoAssign claims virtual-typed blocks for every use except LoadBalancer", File: "libcalico-go/lib/ipam/ipam.go",
+				Old: "\tif use == v3.IPPoolAllowedUseLoadBalancer {\n\t\taffinityCfg.AffinityType = AffinityTypeVirtual\n\t}\n", New: "\tif use != v3.IPPoolAllowedUseLoadBalancer {\n\t\taffinityCfg.AffinityType = AffinityTypeVirtual\n\t}\n", Expect: "C20.afftype/ipamClient.autoAssign"},
 			{Name: "returned address carries the pool's mask instead of the block's", File: "libcalico-go/lib/ipam/ipam_block.go",
 				Old: "\t\tipNet := *mask\n\t\tipNet.IP = addr.IP\n", New: "\t\tipNet := cnet.IPNet{IPNet: net.IPNet{IP: addr.IP, Mask: addr.IP.DefaultMask()}}\n\t\t_ = mask\n", Expect: "C20.cidr/allocationBlock.autoAssign"},
 		},
@@ -275,6 +283,7 @@ func runC20(c *Ctx) {
 	c.Rule("C20.cap", "E-GUARD/E-FLOW", "allowNewClaim=false stored before findOrClaimBlock whenever numBlocksOwned >= maxNumBlocks; owned count = len(affine blocks)+newly claimed; new block search only under allowNewClaim", 7)
 	c.Rule("C20.filterro", "E-OWN", "addrFilter implementations are read-only: no interface method of a filter (nor a function it hands its storage to) writes into, appends to or sorts the receiver's backing storage, which is shared by every check of a request", 6)
 	c.Rule("C20.capset", "E-FLOW", "the blocks counted against MaxBlocksPerHost are every block affinity listed for the host: the affine-block list comes from getAffineBlocks, and getAffineBlocks keeps or drops no listed affinity depending on its value (state)", 2)
+	c.Rule("C20.afftype", "E-PAIR (path-sensitive abstract interpretation)", "every function that builds an AffinityConfig from a request's intended use classifies it the same way (LoadBalancer → AffinityTypeVirtual, otherwise AffinityTypeHost) at every point where the config is used, so the affinity lookup and the block claim of one request address the same (type, host)", 3)
 	c.Rule("C20.cidr", "E-FLOW", "every IPNet returned by allocationBlock.autoAssign is the parsed block CIDR with IP := OrdinalToIP(allocated ordinal)", 1)
 
 	c20Use(m)
@@ -284,6 +293,7 @@ func runC20(c *Ctx) {
 	c20CIDR(m)
 	c20FilterRO(m)
 	c20CapSet(m)
+	c20AffType(m)
 }
 
 // ----------------------------------------------------------------------- use --
